@@ -74,6 +74,19 @@ def make_case(rng, i, tier):
         r2 = random.Random(f"c10-hanging:{i}")
         spec["hanging"] = [[r2.choice(chans), r2.choice((60, 62, 64)), r2.randrange(0, target + 1), 50 + k]
                            for k in range(r2.randint(2, 3))]
+    if i % 12 == 5:
+        # exactly as long as the bar, with a signature on the closing tick (after the last rest): a conflicting one, or a second
+        # one behind a leading matching one, must be rejected like anywhere else in the bar
+        import random
+        r4 = random.Random(f"c10-closing:{i}")
+        length, target = "exact", cap
+        notes = gen.wf_notes(r4, r4.randint(0, 4), chans=chans, pitches=(60, 62, 64), tmax=max(1, cap - 1), lmin=1, lmax=max(1, min(30, cap)), tend=cap)
+        mode = r4.choice(["closing_conflict", "leading_match_closing_second", "closing_match_only"])
+        extra = {"closing_conflict": [["ts", cap, other[0], other[1]]],
+                 "leading_match_closing_second": [["ts", 0, num, den], ["ts", cap, num, den]],
+                 "closing_match_only": [["ts", cap, num, den]]}[mode]
+        sigmode = mode
+        spec = {"notes": notes, "extra": extra, "start": r4.choice(["abs", "rel", "both"])}
     soup = None
     if rng.random() < 0.12:
         soup = [["on", 0, 60, 9], ["wait", rng.randint(1, max(1, cap))], ["on", 0, 60, 9], ["off", 0, 61], ["wait", 3]]
